@@ -202,6 +202,36 @@ pub fn run(ctx: &Ctx) -> Report {
                 }
             }
         }
+        // wrong signatures under clocks on both sides of a day / month / year boundary (request and server on
+        // different UTC dates, either way round), with a fractional second and with a session token
+        for (tag, (y, mo, d, h, mi), server_off) in [
+            ("before-midnight", (2015i64, 8u32, 30u32, 23u32, 55u32), 600i64),
+            ("after-midnight", (2015, 8, 31, 0, 5), -600),
+            ("year-end", (2015, 12, 31, 23, 59), 120),
+            ("leap-day", (2016, 2, 29, 23, 50), 899),
+            ("new-year", (2016, 1, 1, 0, 0), -1),
+        ] {
+            for carrier in [refmodel::sign::Carrier::Header, refmodel::sign::Carrier::Query] {
+                let inst = refmodel::Instant::from_civil(y, mo, d, h, mi, 0, 0);
+                let mut plan = e2e::base_plan(carrier);
+                plan.instant = inst;
+                plan.date_text = inst.compact();
+                e2e::rekey(&mut plan, secret, "us-east-1", "service");
+                let built = refmodel::sign::build(&plan);
+                let sig = built.signed.signature.clone();
+                let mut w = crate::sut::WireReq::from_wire(&built.wire);
+                let wrong = format!("{}{}", &sig[..63], if sig.ends_with('0') { '1' } else { '0' });
+                w.uri = w.uri.replace(&sig, &wrong);
+                for hd in w.headers.iter_mut() {
+                    let t = String::from_utf8_lossy(&hd.1).to_string();
+                    if t.contains(&sig) {
+                        hd.1 = t.replace(&sig, &wrong).into_bytes();
+                    }
+                }
+                let cfg = crate::sut::Cfg::basic(refmodel::Instant::new(inst.secs + server_off, 0));
+                cases.push((format!("{:?}:wrong-signature:{}", carrier, tag), crate::e2e::Case { wire: w, cfg, prov: ProvSpec::standard() }));
+            }
+        }
         // signatures that would have been accepted for requests refused earlier in this run on this thread: none of
         // them may turn up later either (nothing remembered from one validation may surface in another)
         let mut history: Vec<Needle> = Vec::new();
@@ -382,7 +412,7 @@ pub fn run(ctx: &Ctx) -> Report {
     st.sample(0, 1, || json!({"observables": ["error Display/Debug", "key types Debug/Display", "provider request/response Debug", "CanonicalRequest/AuthParams/SigV4Authenticator Debug", "log records >= debug"], "needles_per_secret": n_needles / 3}));
     Report {
         stats: st,
-        rule: "3 secrets x 47 request classes (one per stage of the documented order on each carrier, valid, wrong signature, and presented signatures of 7 unusual shapes: truncated, empty, extended, doubled, upper-case, non-hex) x 6 provider outcomes (key, wrong key, ExpiredToken, io error, private error type, a private error type whose message is harmless and whose derived Debug shows the key record it was handling); observables: the returned error's Display and Debug, the response Debug, Debug/Display (plain and alternate) of the five key types, GetSigningKeyRequest/Response, SigV4AuthenticatorResponse, CanonicalRequest, AuthParams, SigV4Authenticator, KeyTooLongError from five refused constructions (capacity one short, stray line ending, capacities 0/3/4/36, long input), and every log record at level >= Debug captured by the harness logger during validation and during key construction / refusal / derivation (Trace records counted, not searched); needles: secret, AWS4+secret, kDate, kRegion, kService, kSigning, each raw, hex, HEX, base64, base64url, as a decimal byte list and ascii-escaped, plus the correct signature of each refused request that did not present it (under the true key and under the key the provider handed out), searched in that request's observables and in those of every later validation of the run. states = (class, provider, outcome)".into(),
+        rule: "3 secrets x 47 request classes (one per stage of the documented order on each carrier, valid, wrong signature, and presented signatures of 7 unusual shapes: truncated, empty, extended, doubled, upper-case, non-hex; and wrong signatures with request and server clock on different sides of a day, month, leap-day and year boundary) x 6 provider outcomes (key, wrong key, ExpiredToken, io error, private error type, a private error type whose message is harmless and whose derived Debug shows the key record it was handling); observables: the returned error's Display and Debug, the response Debug, Debug/Display (plain and alternate) of the five key types, GetSigningKeyRequest/Response, SigV4AuthenticatorResponse, CanonicalRequest, AuthParams, SigV4Authenticator, KeyTooLongError from five refused constructions (capacity one short, stray line ending, capacities 0/3/4/36, long input), and every log record at level >= Debug captured by the harness logger during validation and during key construction / refusal / derivation (Trace records counted, not searched); needles: secret, AWS4+secret, kDate, kRegion, kService, kSigning, each raw, hex, HEX, base64, base64url, as a decimal byte list and ascii-escaped, plus the correct signature of each refused request that did not present it (under the true key and under the key the provider handed out), searched in that request's observables and in those of every later validation of the run. states = (class, provider, outcome)".into(),
         bounds: json!({"secrets": 3, "classes": classes.len(), "provider_outcomes": 5}),
         exhaustive: true,
         assumptions: vec!["needles shorter than 16 bytes are not searched (accidental matches)".into()],
